@@ -161,8 +161,8 @@ func init() {
 				return "CRename"
 			case "dir.Sync":
 				return "CDirSync"
-			case "filepath.Dir", "time.Now", "aw.mtime.IsZero":
-				return ""
+			case "filepath.Dir", "time.Now", "aw.mtime.IsZero", "fmt.Errorf", "errors.New":
+				return "" // pure: no file-system effect
 			}
 			return "?"
 		}, &commit)
